@@ -1,4 +1,11 @@
-"""C17 — Lattice3D addressing, arithmetic and CSV persistence.  Tie C (exact, Float driver).
+"""C17 — Lattice3D addressing, arithmetic and CSV persistence.  Tie T + tie C (exact, Float driver).
+
+Tie T: `harness/translate/lattice.py` regenerates `Gen/Lattice.lean` from the current text of Lattice3D.py
+(constructor, index searches, by-index / point / nearest-neighbour access, coordinates, closest indices, range
+test, interpolation guard, operators, average, rescale, reset); `Lemmas/LatticeGen.lean` proves every generated
+definition equal to the hand-written model, `Props/C17/Gen.lean` restates the property theorems about them.
+Tie C: the hand-written model (`seq`) AND the generated functions (`gseq`) are run by the driver at Float on
+every scenario and compared with the real class.  CSV save/load stays a hand mirror (tie C only).
 
 A *scenario* is a handful of lattices (real `np.linspace` node arrays = the `lin` parameter of the model)
 plus a sequence of public calls on them.  `run_real` executes it on the real class and records one canonical
@@ -25,10 +32,30 @@ INF = float("inf")
 NAN = float("nan")
 
 
+# ------------------------------------------------------------------ translator (tie T)
+def translate(ctx):
+    from translate import lattice
+    src = common.read_src("Lattice3D.py")
+    text, regions, info = lattice.render(src)
+    common.write_if_changed(common.LEAN / "SparkxVerif/Gen/Lattice.lean", text)
+    golden = common.LEAN / "golden/Gen/Lattice.lean"
+    ctx.cov["gen_equals_golden"] = golden.exists() and golden.read_text() == text
+    ctx.cov["translated_methods"] = sorted(k for k in info)
+    ctx.cov["tie"] = ("T+C: Gen/Lattice.lean regenerated from the current source, proved equal to the model "
+                      "(Lemmas/LatticeGen), executed at Float against the real class (gseq); CSV save/load: C only")
+    return regions
+
+
 # ------------------------------------------------------------------ canonical text
 def fx(x) -> str:
     x = float(x)
     return "nan" if x != x else f2h(x)
+
+
+def fx0(x) -> str:
+    """a number with the sign of a zero removed (driver: `fhex0`)"""
+    x = float(x)
+    return fx(0.0) if x == 0 else fx(x)
 
 
 def fxs(xs) -> str:
@@ -214,7 +241,7 @@ def gen_scenario(rng, ncmd=(6, 22), maxn=6, wild=True):
         l = rng.randrange(len(live))
         L = live[l]
         k = rng.choice(["si", "sp", "sp", "sn", "rs", "gi", "gp", "gp", "gn", "co", "fc", "xi", "xi", "xn",
-                        "iv", "bo", "av", "sv", "ld", "nodept"])
+                        "iv", "bo", "av", "sv", "ld", "nodept", "rz", "at"])
         if k in ("sp", "sn", "gp", "gn", "fc", "iv"):
             pt = [gen_point_axis(rng, L["nodes"][a]) for a in range(3)]
             cls = [c for _, c in pt]
@@ -244,6 +271,11 @@ def gen_scenario(rng, ncmd=(6, 22), maxn=6, wild=True):
             cmds.append(dict(k=k, l=l, ax=a, x=v, cls=[c]))
         elif k == "rs":
             cmds.append(dict(k=k, l=l, f=rng.choice([2.0, 0.5, -1.0, 0.0, 1 / 3.0, gen_value(rng, wild)])))
+        elif k == "rz":
+            if rng.random() < 0.35:          # reset is rare: it wipes the history the other calls build up
+                cmds.append(dict(k=k, l=l))
+        elif k == "at":
+            cmds.append(dict(k=k, l=l))
         elif k == "bo":
             b = rng.randrange(len(live))
             cmds.append(dict(k=k, o=rng.choice(["add", "sub", "mul", "div"]), a=l, b=b))
@@ -338,6 +370,16 @@ def run_real(scn, tmpdir, hook=None):
                     dcmds.append(f"rs,{c['l']},{fx(c['f'])}")
                     objs[c["l"]].rescale(c["f"])
                     ans = "-"
+                elif k == "rz":
+                    dcmds.append(f"rz,{c['l']}")
+                    objs[c["l"]].reset()
+                    ans = "-"
+                elif k == "at":
+                    dcmds.append(f"at,{c['l']}")
+                    L = objs[c["l"]]
+                    ans = "a" + ";".join("none" if v is None else fx0(v) for v in (
+                        L.cell_volume_, L.spacing_x_, L.spacing_y_, L.spacing_z_,
+                        L.density_x_, L.density_y_, L.density_z_))
                 elif k == "gi":
                     i, j, kk = c["i"]
                     dcmds.append(f"gi,{c['l']},{i},{j},{kk}")
@@ -362,8 +404,10 @@ def run_real(scn, tmpdir, hook=None):
                 elif k in ("xi", "xn"):
                     L = objs[c["l"]]
                     vals = (L.x_values_, L.y_values_, L.z_values_)[c["ax"]]
+                    f = getattr(L, "_Lattice3D__get_index" if k == "xi" else "_Lattice3D__get_index_nearest_neighbor", None)
+                    if f is None:            # private helper gone (a rewrite): the public calls carry the comparison
+                        continue
                     dcmds.append(f"{k},{c['l']},{c['ax']},{fx(c['x'])}")
-                    f = L._Lattice3D__get_index if k == "xi" else L._Lattice3D__get_index_nearest_neighbor
                     ans = f"i{int(f(c['x'], vals))}"
                 elif k == "iv":
                     L = objs[c["l"]]
@@ -526,6 +570,13 @@ def _expect(c, refs, nobj, state):
         for t in R.store:
             R.store[t] = _arith(lambda x, y: x * y, R.store[t], c["f"])
         return "-", "rescale", None
+    if k == "rz":
+        R = refs[c["l"]]
+        for t in R.store:
+            R.store[t] = 0.0
+        return "-", "reset", None
+    if k == "at":
+        return None, None, None          # derived constructor attributes are outside the statement of C17
     if k == "gi":
         R = refs[c["l"]]
         if R.valid(c["i"]):
@@ -708,7 +759,9 @@ def correspond(ctx):
     ctx.rule = ("random scenarios: 1-3 lattices (non-cubic, 1..6(8) nodes per axis, 2-node axes 30%, negative / reversed / "
                 "integer extents, arbitrary doubles incl. inf/nan/subnormals as grid content) and 6-22 public calls "
                 "(set/get by index incl. negative & huge indices, set/get by point, nearest-neighbour, coordinates, closest "
-                "indices, private index searches, interpolate, + - * /, average, rescale, save/load incl. damaged rows); "
+                "indices, private index searches, interpolate, + - * /, average, rescale, reset, derived constructor "
+                "attributes, save/load incl. damaged rows), each run on the hand-written model AND on the functions "
+                "generated from the current source; "
                 "points are nodes, node±1ulp, edges, midpoints, just outside, far outside, ±inf, NaN, inside. "
                 "non-trivial = scenario with at least one boundary-class point access AND one accepted write or operator; "
                 "distinct by canonical driver line")
@@ -728,6 +781,7 @@ def correspond(ctx):
         scn = gen_scenario(rng, maxn=8 if big else 6)
         dcmds, answers, dumps, objs = run_real(scn, tmpdir)
         lines.append(scn_line(scn, dcmds))
+        lines.append("g" + scn_line(scn, dcmds))           # the same scenario on the GENERATED functions
         meta.append((scn, dcmds, answers, dumps))
         contract["linspace"] += 3 * len(scn["lats"])
         # contracts of the text layer / interpn on the values actually supplied
@@ -737,9 +791,12 @@ def correspond(ctx):
     outs = common.run_driver("C17", lines)
     if not outs[0].startswith("ok i2|err:value "):
         ctx.brk("correspondence-broken", f"monitor line: model answered {outs[0][:80]!r}, expected 'ok i2|err:value …'")
-    for m, out in zip(meta[1:], outs[1:]):
+    ngen = 0
+    for t, m in enumerate(meta[1:]):
+        out, gout = outs[1 + 2 * t], outs[2 + 2 * t]
         scn, dcmds, answers, dumps = m
         want = "ok " + "|".join(answers) + " " + "|".join(dumps)
+        ngen += 1
         classes = [x for c in scn["cmds"] for x in c.get("cls", [])]
         wrote = any(a in ("w0",) or a.startswith("new") for a in answers)
         nontriv = wrote and any(x in BOUNDARY for x in classes)
@@ -753,9 +810,10 @@ def correspond(ctx):
             ctx.count("point/" + x)
         for l in scn["lats"]:
             ctx.count("shape/" + "x".join(str(v) for v in sorted(l["n"])))
-        if out != want:
+        if out != want or gout != want:
             # where do they differ?
-            what = _first_diff(out, want, dcmds)
+            what = ("hand-written model: " + _first_diff(out, want, dcmds)) if out != want else \
+                ("functions generated from the current source: " + _first_diff(gout, want, dcmds))
             if len({v["key"] for v in ctx.violations}) >= 4 or len(ctx.broken) >= 6:
                 ctx.count("further-differing-scenarios-not-analysed")
                 continue
@@ -767,6 +825,7 @@ def correspond(ctx):
                                                  how_to_replay="./check C17 --replay <this file>"))
             else:
                 ctx.brk("correspondence-broken", what, case=dict(scenario=_strip(scn), driver_commands=dcmds))
+    ctx.cov["generated_function_scenarios"] = ngen
     # interpn contract: exact at grid points (finite data), both methods
     from scipy.interpolate import interpn
     for _ in range(ctx.n(40, 400)):
@@ -909,9 +968,10 @@ def replay(ctx, path):
     r = oracle(scn, tmpdir)
     dcmds, answers, dumps, _ = run_real(scn, tmpdir)
     try:
-        out = common.run_driver("C17", [scn_line(scn, dcmds)])[0]
+        out, gout = common.run_driver("C17", [scn_line(scn, dcmds), "g" + scn_line(scn, dcmds)])
         want = "ok " + "|".join(answers) + " " + "|".join(dumps)
         print("[C17] model vs real code:", "equal" if out == want else _first_diff(out, want, dcmds))
+        print("[C17] generated functions vs real code:", "equal" if gout == want else _first_diff(gout, want, dcmds))
     except Exception as e:  # noqa: BLE001
         print(f"[C17] driver not run: {e}")
     if r:
